@@ -188,3 +188,39 @@ func TimeAt(ns int64) time.Time { return time.Unix(0, ns).UTC() }
 
 // TimeNs is the inverse of TimeAt (intrinsic).
 func TimeNs(t time.Time) int64 { return t.UnixNano() }
+
+// Par runs two potentially blocking calls f1, f2 and an environment action env "in parallel":
+//   - under the engine: f1 runs until it blocks, then f2 runs until it blocks, then env runs; f2 and then f1 must be
+//     able to complete afterwards (a select that still cannot proceed is reported as a blocking violation);
+//   - natively: f1 and f2 run in goroutines, env runs once both had time to block; a call still blocked after the
+//     timeout is recorded as the failure "blocked forever".
+func Par(f1, f2, env func()) {
+	if Symbolic() {
+		OnIdle(func() {
+			OnIdle(func() {
+				OnIdle(nil)
+				env()
+			})
+			f2()
+		})
+		f1()
+		OnIdle(nil)
+		return
+	}
+	d1, d2 := make(chan struct{}), make(chan struct{})
+	go func() { defer close(d1); f1() }()
+	go func() { defer close(d2); f2() }()
+	time.Sleep(20 * time.Millisecond)
+	env()
+	timeout := time.After(1500 * time.Millisecond)
+	for _, d := range []chan struct{}{d1, d2} {
+		select {
+		case <-d:
+		case <-timeout:
+			mu.Lock()
+			Failures = append(Failures, "blocked forever")
+			mu.Unlock()
+			return
+		}
+	}
+}
